@@ -1076,6 +1076,21 @@ Lemma out_only_valid ops k r :
 Proof. apply (out_run_valid ops out_init). intros k0 r0 H. discriminate H. Qed.
 
 (* ------------------------------------------------------------------------------------------ *)
+(* a NaN threshold / trigger count (the only float x with x =? x false) fails the validity checks *)
+Lemma flow_nan_invalid tm r : (f_thr r =? f_thr r)%float = false -> flow_valid tm r = false.
+Proof. intros H. unfold flow_valid. rewrite H. destruct (f_res r =? 0); reflexivity. Qed.
+
+Lemma brk_nan_invalid r : (b_thr r =? b_thr r)%float = false -> brk_valid r = false.
+Proof.
+  intros H. unfold brk_valid. rewrite H.
+  destruct (b_res r =? 0); [reflexivity|]. destruct (b_interval r <=? 0); [reflexivity|].
+  destruct (b_retry r <=? 0); reflexivity.
+Qed.
+
+Lemma sys_nan_invalid r : (s_trigger r =? s_trigger r)%float = false -> sys_valid r = false.
+Proof. intros H. unfold sys_valid. rewrite H. reflexivity. Qed.
+
+(* ------------------------------------------------------------------------------------------ *)
 (* C14: behaviour.  A controller's decisions are a function of the controller object (bound rule,
    identity, statistics object) and of the runtime store, which rule loading never touches; a kept
    controller object therefore decides exactly as in the run without the reload. *)
